@@ -46,8 +46,65 @@ DocumentedNumbers(sub) ==
     [] sub = "odd_first_picture" -> [i \in 1..8 |-> Limbs(6 + i)]
     [] OTHER -> <<>>
 
+(* ---- the abstract configuration ---------------------------------------------------------- *)
+(*   cfg = [profile : {"hq","ld"}, lossless, fragments, fields : BOOLEAN,                    *)
+(*          asym : BOOLEAN, qm : QmClasses, range : RangeClasses, slice : SliceClasses,    *)
+(*          chroma : ChromaFormats]                                                          *)
+(* asym       asymmetric transform (dwt_depth_ho > 0 or wavelet_index_ho # wavelet_index)    *)
+(* qm         "default"      the default quantisation matrix of the transform is used        *)
+(*            "custom"       a custom matrix is configured although a default one exists     *)
+(*            "custom_only"  a custom matrix is configured because no default one exists     *)
+(*                           (within the instantiated space: wavelet_index_ho #              *)
+(*                           wavelet_index, hence asymmetric)                                *)
+(* range      class of the signal range (11.4.9): one of the presets that exist in every     *)
+(*            version, one of the presets added in version 3, or no preset at all            *)
+(* slice      "large" = more than 510 luma coefficients per slice: a luma block in which     *)
+(*            every coefficient is 1 (4 bits) does not fit 255 bytes, i.e. needs a           *)
+(*            slice_size_scaler above 1 (13.5.4); "small" otherwise                          *)
+(* chroma     colour difference sampling format (colour difference blocks of a slice are     *)
+(*            1, 1/2, 1/4 of the luma block)                                                 *)
+QmClasses == {"default", "custom", "custom_only"}
+RangeClasses == {"preset_v2", "preset_v3", "custom"}
+SliceClasses == {"small", "large"}
+ChromaFormats == {"444", "422", "420"}
+
+(* (Table 11.5 / 11.4.9) preset signal ranges <<luma_offset, luma_excursion, color_diff_offset,         *)
+(* color_diff_excursion>> by index; indices 5 to 8 were added in version 3 of the standard (11.2.2):   *)
+(* a stream that selects one of them must declare major_version 3, and a stream that is version 3 must *)
+(* use some version-3 feature.                                                                          *)
+SignalRangePresets == << <<0, 255, 128, 255>>, <<16, 219, 128, 224>>, <<64, 876, 512, 896>>,
+                          <<256, 3504, 2048, 3584>>, <<0, 1023, 512, 1023>>, <<0, 4095, 2048, 4095>>,
+                          <<4096, 56064, 32768, 57344>>, <<0, 65535, 32768, 65535>> >>
+PresetMinVersion(i) == IF i >= 5 THEN 3 ELSE 1
+\* ranges no preset describes: unequal 16 / 14 bit depths; a 9 bit full range
+CustomRanges == { <<0, 65535, 8192, 16383>>, <<0, 511, 256, 511>> }
+RangeClassOf(rng) ==
+  IF \E i \in 1..8 : SignalRangePresets[i] = rng
+  THEN (IF PresetMinVersion(CHOOSE i \in 1..8 : SignalRangePresets[i] = rng) = 3 THEN "preset_v3" ELSE "preset_v2")
+  ELSE "custom"
+RangesOf(class) ==
+  IF class = "custom" THEN CustomRanges
+  ELSE {SignalRangePresets[i] : i \in {j \in 1..8 : (PresetMinVersion(j) = 3) <=> (class = "preset_v3")}}
+
+LargeSliceLumaCoeffs == 510        \* 510 coefficients of 4 bits = 255 bytes: the most a length field of scaler 1 holds
+SliceClassOf(lumaCoeffsPerSlice) == IF lumaCoeffsPerSlice > LargeSliceLumaCoeffs THEN "large" ELSE "small"
+ChromaOf(index) == CASE index = 0 -> "444" [] index = 1 -> "422" [] OTHER -> "420"
+QmClassOf(customqm, hasdefault) == IF ~customqm THEN "default" ELSE IF hasdefault THEN "custom" ELSE "custom_only"
+
+(* the lowest major_version that supports everything the configuration uses (11.2.2): the plain        *)
+(* encoding of every test case of the configuration declares exactly this version                      *)
+MinVersion(cfg) == IF cfg.fragments \/ cfg.asym \/ cfg.range = "preset_v3" THEN 3
+                   ELSE IF cfg.profile = "hq" THEN 2 ELSE 1
+(* the colour difference blocks of a slice are smaller than its luma block: a slice_size_scaler must   *)
+(* be derived from the largest block, not from any one component                                       *)
+ComponentsDiffer(cfg) == cfg.chroma # "444"
+ScalerDependsOnLumaOnly(cfg) == cfg.slice = "large" /\ ComponentsDiffer(cfg)
+
+BaseCfg == [profile |-> "hq", lossless |-> FALSE, fragments |-> FALSE, fields |-> FALSE,
+            asym |-> FALSE, qm |-> "default", range |-> "preset_v2", slice |-> "small", chroma |-> "444"]
+Deviations(c) == Cardinality({k \in DOMAIN BaseCfg : c[k] # BaseCfg[k]})
+
 (* sub-cases that a family may produce, given the abstract configuration                    *)
-(*   cfg = [profile : {"hq","ld"}, lossless, fragments, fields : BOOLEAN]                   *)
 Fillers    == {"all_zeros", "all_ones", "alternating_1s_and_0s", "alternating_0s_and_1s", "dummy_end_of_sequence"}
 Components(cfg) == IF cfg.profile = "hq" THEN {"Y", "C1", "C2"} ELSE {"Y", "C"}
 Dangles    == {"zero_dangling", "sign_dangling", "stop_and_sign_dangling", "lsb_stop_and_sign_dangling"}
@@ -75,6 +132,10 @@ Omitted(cfg, f) ==
   \/ f = "slice_prefix_bytes" /\ cfg.profile # "hq"
   \/ f = "slice_size_scaler" /\ cfg.profile # "hq"
   \/ f = "lossless_quantization" /\ ~cfg.lossless
+  \* "skipped for streams whose major version is less than 3"
+  \/ f = "extended_transform_parameters" /\ MinVersion(cfg) < 3
+  \* "only generated when a non default value is specified ... but when a default quantization matrix is defined"
+  \/ f = "default_quantization_matrix" /\ cfg.qm # "custom"
 (* sub-cases that must be produced whenever the family is (for an unconstrained level) *)
 Required(cfg, f) ==
   IF f \in {"padding_data", "slice_padding_data", "picture_numbers", "interlace_mode_and_pixel_aspect_ratio"}
